@@ -331,6 +331,8 @@ def run_shared_parser(ctx):
             150 if quick else 4000, salt=77)
 
 
+HYP = {"history": (lambda ctx: history_case(6 if ctx.tier == "quick" else 10), check_history)}
+
 def run(ctx):
     quick = ctx.tier == "quick"
     for v in (0, 1, 2, 4):
@@ -343,6 +345,6 @@ def run(ctx):
                     check_rerender(ctx, {"component": comp, "ansi": ansi, "verbosity": v, "style": style})
     ctx.parallel("shard_styles", [(i, 16) for i in range(16)])
     ctx.exhaustive("styles", True, "all orders of 2-4 of the predefined styles x which one (or none) is customised, plus repeated constructions")
-    ctx.hyp(history_case(6 if quick else 10), lambda c: check_history(ctx, c), 350 if quick else 12000, salt=1)
+    ctx.hyp_sharded("history", 2400 if quick else 30000, salt=1)
     run_shared_parser(ctx)
     raisers.cleanup()
